@@ -335,7 +335,7 @@ def main(tier: str, seed: int):
     sess = Session(PID, tier, seed, level="exploration", rule=RULE)
     sess.assume("the sequential reference is the driver's own one-after-another path (agents gate off) on a deep copy of the state with its own log directory")
     sess.assume("the contract-following compute stand-in replaces Orchestrator.run_turn only; snapshotting, apply, staging, selection and commit are the repository's code")
-    total = 140 if tier == "quick" else 6000
+    total = 140 if tier == "quick" else 30000
     nchunks = par.NWORK
     per = max(1, total // nchunks)
     for ex in par.pmap(_chunk, [(tier, seed, i, per) for i in range(nchunks)]):
